@@ -5,7 +5,7 @@ from ..harness import Job, finding, model_of
 
 ID = 'C14'
 PROFILES = ['dev']
-BOUNDS = {'value kinds': 'all six, kind symbolic', 'numbers': 'all 2^64 doubles', 'booleans': 'both', 'strings': 'all strings (opaque z3 sequence; parse::<f64> uninterpreted but functional)',
+BOUNDS = {'value kinds': 'all six, kind symbolic', 'numbers': 'all 2^64 doubles', 'booleans': 'both', 'strings': 'all strings (opaque z3 sequence; parse::<f64> uninterpreted but functional) and, in the *-short-strings jobs, every string of <= 2 characters over {1, space, x, -, .} with real number parsing',
           'arrays': 'sequence length 0..=2 (thorough: 0..=3), elements lazily symbolic scalars (depth 1), dictionary part 0..=1 entries',
           'inc/dec': 'n in {1,2,3,16,2^20} (thorough: 1..=16, 1000, 2^20), x any integral double with |x| + n <= 2^53, and both booleans (a symbolic 64-bit n makes the FP query exceed 240 s in z3: measured)'}
 OUTSIDE = ['arrays longer than the bound or nested deeper than 1', 'dictionaries with more than one entry',
@@ -18,8 +18,26 @@ ASSUMPTIONS = ['std models of DESIGN.md §2.4 (Option/Result/Cow/Rc/iterators/Ha
 RULE = 'state = feasible path end of a law harness over two lazily symbolic values (distinct kind/shape/branch decisions); every path end discharges pc ∧ ¬law with z3'
 
 
+NUMERIC_ALPHA = [0x31, 0x20, 0x78, 0x2D, 0x2E]      # '1', ' ', 'x', '-', '.'
+
+
+def short_numeric_string(vm, name):
+    """bounded companion domain: strings of <= 2 characters over {'1',' ','x','-','.'} -- here number parsing is *real*
+    (each character is split on its value), so laws that hinge on which texts parse are decided, not abstracted"""
+    from ..strings import BStr, Buf
+    n = vm.fork(3, note=f'{name}.len')
+    cps = []
+    for i in range(n):
+        c = z3.BitVec(f'{name}.c{i}', 32)
+        vm.assume(z3.Or(*[c == m for m in NUMERIC_ALPHA])); vm.domains[c.get_id()] = set(NUMERIC_ALPHA); vm.keep.append(c)
+        cps.append(c)
+    return BStr(Buf(cps, [1] * n))
+
+
 def mk(vm, name, kinds=None):
     am = 3 if getattr(vm, 'tier', 'quick') == 'thorough' else 2
+    if getattr(vm, 'str_mode', 'opaque') == 'bounded':
+        return sym_val(vm, name, arr_max=1, depth=1, dict_max=0, kinds=kinds, str_factory=short_numeric_string)
     return sym_val(vm, name, arr_max=am, depth=1, dict_max=1, kinds=kinds)
 
 
@@ -159,6 +177,9 @@ def jobs(ctx, tier):
         js.append(Job(f'eq/{KINDS[ka]}', h_eq, (mir, ka), witness=['eq-done'], weight=w))
         js.append(Job(f'ord/{KINDS[ka]}', h_ord, (mir, ka), witness=(['ordered'] if ka in (0, 1, 3, 4) else []), weight=w))
         js.append(Job(f'logic/{KINDS[ka]}', h_logic, (mir, ka), witness=['logic-done'], weight=w))
+        if ka in (1, 2, 3, 4):
+            js.append(Job(f'eq-short-strings/{KINDS[ka]}', h_eq, (mir, ka), witness=['eq-done'], str_mode='bounded', weight=3))
+            js.append(Job(f'ord-short-strings/{KINDS[ka]}', h_ord, (mir, ka), witness=(['ordered'] if ka != 2 else []), str_mode='bounded', weight=3))
         js.append(Job(f'incdec/{KINDS[ka]}', h_incdec, (mir, ka), witness=['incdec-done'], timeout_ms=60_000 if tier == 'quick' else 300_000))
     return js
 
